@@ -483,6 +483,7 @@ func runC14Reflect(c *Ctx) {
 func runC16More(c *Ctx) {
 	p := c.P
 	runC16Lazy(c)
+	runC16Enabled(c)
 	pk := p.Pkg("config/confighttp")
 	if pk == nil {
 		c.Anchor("config/confighttp")
